@@ -207,6 +207,28 @@ def nesting():
     return out
 
 
+def long_programs():
+    """the length of a program, of a line, of a list is not a nesting depth: long listings convert (or are refused with a documented error),
+    and a mistake in the last line of a long listing is reported as the mistake it is"""
+    def run():
+        res = []
+        body = "".join("%d A%d=%d\n" % (10 * (i + 1), i % 10, i) for i in range(1500))
+        cases = {"1500 lines": (body, True), "1500 lines, the last one malformed": (body + "15010 A=(\n", False), "600 statements on one line": ("10 A=1" + ":A=A+1" * 600 + "\n", True),
+                 "500 PRINT items": ("10 PRINT 1" + ";1" * 500 + "\n", True), "800 DATA items": ("10 DATA 1" + ",1" * 800 + "\n", True), "300 terms in one sum": ("10 A=1" + "+B" * 300 + "\n", True),
+                 "200 ON targets": ("10 ON A GOTO 10" + ",10" * 200 + "\n", True), "60 names in one DIM": ("10 DIM " + ",".join("A%d(2)" % (i % 10) if False else "%s%s(2)" % (chr(65 + i // 26), chr(65 + i % 26)) for i in range(60)) + "\n", True),
+                 "400 blank lines between two lines": ("10 A=1\n" + "\n" * 400 + "20 B=2\n", True)}
+        for name, (src, accepted) in cases.items():
+            try:
+                convert(src, add_standard_prefix=False)
+                got = "converted"
+            except Exception as e:  # noqa
+                kind, what = classify(e)
+                got = "documented refusal" if kind == "documented" else (what or kind)
+            res.append(ob("long/%s" % name, got == ("converted" if accepted else "documented refusal"), "converted" if accepted else "documented refusal", got[:120], bounded="one long listing"))
+        return res
+    return guarded("long", run)
+
+
 def duplicate_lines():
     """a listing may define a line number twice (a merged or hand-edited file): whatever refers to such a number, the text is converted or
     refused with a documented error"""
@@ -500,4 +522,4 @@ def cli_content():
 
 
 def obligations():
-    return arity() + tables() + operators() + literals() + data_and_procnames() + loop_balance() + no_hang() + config_files() + cli_file_names() + cli_content() + duplicate_lines() + nesting() + mutations()
+    return arity() + tables() + operators() + literals() + data_and_procnames() + loop_balance() + no_hang() + config_files() + cli_file_names() + cli_content() + duplicate_lines() + long_programs() + nesting() + mutations()
